@@ -68,7 +68,9 @@ def gen_cases(ctx):
             if rng.random() < 0.5:
                 kw = {'thresholds': [q(p) for p in [0.6, 0.4, 0.25, 0.15][:rounds]]}
             else:
-                kw = {'quantiles': [float(rng.choice([0.3, 0.5, 0.7]))] * rounds}
+                # keep the overall acceptance (product of quantiles) above a few percent: the sampler retries for ever by design
+                kw = {'quantiles': [float(rng.choice([0.5, 0.7]))] * rounds if rounds > 2 else [float(rng.choice([0.3, 0.5, 0.7]))] * rounds}
+                spec['disc']['flavour'] = 'cont'
         case = {'spec': spec, 'sampler': sampler, 'bs': bs, 'n': n, 'kw': kw, 'seed': seed}
         if sampler == 'smc' and rng.random() < 0.3:
             case['cont'] = {'thresholds': [q(0.1)]} if 'thresholds' in kw else {'quantiles': [0.5]}
